@@ -19,6 +19,49 @@ pub fn worker(case: &Value) -> Value {
         let o = run_pipeline(case["text"].as_str().unwrap_or(""), &RunOpts::default());
         return json!({"n": 1, "bad": [], "observed": {"stdout": o.stdout_str(), "end": format!("{:?}", o.end)}});
     }
+    if case["k"].as_str() == Some("valstr") {
+        // VAL(STR$(k)) = k for whole numbers that only a DOUBLE holds (beyond 2^31, 2^53, 2^63), both signs
+        let mut ks: Vec<String> = vec!["2147483648".into(), "4294967297".into(), "9007199254740992".into(), "9007199254740994".into(), "10000000000000002".into(), "50031545098999704".into(), "100000000000000016".into(), "123456789012345678".into(), "999999999999999999".into(), "9223372036854775808".into(), "18446744073709551616".into(), "1152921504606848000".into()];
+        let mut p3: u128 = 3;
+        for e in 2..=45u32 {
+            p3 *= 3;
+            if e >= 21 {
+                ks.push(p3.to_string());
+            }
+        }
+        let mut p7: u128 = 7;
+        for e in 2..=24u32 {
+            p7 *= 7;
+            if e >= 12 {
+                ks.push(p7.to_string());
+            }
+        }
+        let mut text = String::new();
+        let mut want = String::new();
+        let mut labels = vec![];
+        for k in &ks {
+            for sign in ["", "-"] {
+                text.push_str(&format!("K# = {}{}: PRINT VAL(STR$(K#)) = K#; VAL(\"{}{}\") = K#\n", sign, k, sign, k));
+                want.push_str("-1 -1 \r\n");
+                labels.push(format!("{}{}", sign, k));
+            }
+        }
+        let o = run_pipeline(&text, &RunOpts::default());
+        let got = o.stdout_str();
+        let mut bad = vec![];
+        if !matches!(o.end, vcore::End::Normal) || got != want {
+            let gl: Vec<&str> = got.split("\r\n").collect();
+            let mut first = format!("the program ended with {}", o.end.class());
+            for (i, l) in labels.iter().enumerate() {
+                if gl.get(i) != Some(&"-1 -1 ") {
+                    first = format!("k = {}: VAL(STR$(k)) = k and VAL(\"k\") = k print {:?}", l, gl.get(i));
+                    break;
+                }
+            }
+            bad.push(json!({"sig": "C17|valstr|output", "summary": format!("VAL(STR$(k)) = k fails for a whole number k held by a DOUBLE — {}", first), "text": text, "case": {"axis": "text", "text": text}}));
+        }
+        return json!({"n": labels.len(), "nontrivial": labels.len(), "bad": bad, "sample": {"label": "VAL(STR$(k)) for whole DOUBLE values"}});
+    }
     let quick = case["quick"].as_bool().unwrap_or(true);
     let lo = case["lo"].as_u64().unwrap() as usize;
     let hi = case["hi"].as_u64().unwrap() as usize;
@@ -44,6 +87,7 @@ pub fn drive(tier: &str) -> i32 {
         cases_v.push(json!({"quick": quick, "lo": lo, "hi": (lo + 300).min(total)}));
         lo += 300;
     }
+    cases_v.push(json!({"k": "valstr"}));
     let total_cases = cases_v.len();
     let cap = run.wall_cap_s;
     let t0 = run.reporter.start;
@@ -53,7 +97,7 @@ pub fn drive(tier: &str) -> i32 {
         run.capped = true;
     }
     let mut ev = Evidence::new("exploration");
-    ev.set("rule", "all strings up to length 4 (thorough: 5) over {a, B, blank} x all counts / positions in -1..7 for LEFT$, RIGHT$, MID$ (2 and 3 arguments), INSTR (2 and 3 arguments, non-empty needles up to length 2), UCASE$/LCASE$/LTRIM$/RTRIM$/LEN on every string (TAB as a non-blank), LEN(a+b), SPACE$(n), STRING$(n, 32 | \"xy\" | \"\"), VAL(STR$(k)) for k in -32768..32767 (quick: every 13th and the boundaries) and a LONG lattice; arguments as literals, as variables and nested in another call; every string up to length 3 (thorough 4) over {a, CHR$(200), CHR$(201)} with a character above 127 in it: lengths of LEFT$ / RIGHT$ / MID$ for every count and position, INSTR of the parts, the LEFT$ + MID$ equation (observed through numbers and comparisons only); position-dependent printable-ASCII strings of 16 (thorough 28) lengths from 6 to 300 (1000) around powers of two and 255 / 256, counts and positions from a lattice {0, 1, 2, len/2, len-1, len, len+1, 255, 256, 1000, 32767} given as INTEGER literal and through LONG / SINGLE / DOUBLE variables (with a fraction that rounds down), observed through lengths, both ends, INSTR from the position and the equations, the case / trim functions on the whole string printed in pieces of 60, SPACE$ / STRING$ with counts up to 32767; the defining equations (LEFT$(s,n)+MID$(s,n+1)=s, SPACE$(n)=STRING$(n,32), LEN(a+b)=LEN(a)+LEN(b), VAL(STR$(k))=k) are evaluated by the implementation itself and printed. Snippets with a normal outcome are batched (bisected on disagreement), Illegal-function-call cases run alone. Every case is non-trivial (each names a distinct argument tuple).");
+    ev.set("rule", "all strings up to length 4 (thorough: 5) over {a, B, blank} x all counts / positions in -1..7 for LEFT$, RIGHT$, MID$ (2 and 3 arguments), INSTR (2 and 3 arguments, non-empty needles up to length 2), UCASE$/LCASE$/LTRIM$/RTRIM$/LEN on every string (TAB as a non-blank), LEN(a+b), SPACE$(n), STRING$(n, 32 | \"xy\" | \"\"), VAL(STR$(k)) for k in -32768..32767 (quick: every 13th and the boundaries), a LONG lattice and 100 whole numbers of both signs that only a DOUBLE holds (beyond 2^31, 2^53 and 2^63: powers of 3 and 7, boundary values); arguments as literals, as variables and nested in another call; every string up to length 3 (thorough 4) over {a, CHR$(200), CHR$(201)} with a character above 127 in it: lengths of LEFT$ / RIGHT$ / MID$ for every count and position, INSTR of the parts, the LEFT$ + MID$ equation (observed through numbers and comparisons only); position-dependent printable-ASCII strings of 16 (thorough 28) lengths from 6 to 300 (1000) around powers of two and 255 / 256, counts and positions from a lattice {0, 1, 2, len/2, len-1, len, len+1, 255, 256, 1000, 32767} given as INTEGER literal and through LONG / SINGLE / DOUBLE variables (with a fraction that rounds down), observed through lengths, both ends, INSTR from the position and the equations, the case / trim functions on the whole string printed in pieces of 60, SPACE$ / STRING$ with counts up to 32767; the defining equations (LEFT$(s,n)+MID$(s,n+1)=s, SPACE$(n)=STRING$(n,32), LEN(a+b)=LEN(a)+LEN(b), VAL(STR$(k))=k) are evaluated by the implementation itself and printed. Snippets with a normal outcome are batched (bisected on disagreement), Illegal-function-call cases run alone. Every case is non-trivial (each names a distinct argument tuple).");
     ev.set("exhaustive", !run.capped);
     ev.set("snippets", total as u64);
     ev.assume("R8: 7-bit ASCII strings; INSTR with an empty needle is not judged (the property speaks of non-empty t)");
